@@ -73,9 +73,10 @@ IntLitSpellings ==
       seps == IF Lang # "c++" THEN {}
               ELSE {Lit(f, n, st, s) : f \in Forms, n \in Boundaries, st \in IF Thorough THEN {"first", "last", "group"} ELSE {"first", "group"},
                                        s \in IF Thorough THEN AllSuffixes ELSE CanonSuffixes}
-      \* quick: every suffix spelling only for decimal and lower-case hex, canonical suffixes for the other forms
-      keep(l) == IF l.sep = "none" THEN Thorough \/ l.suffix \in CanonSuffixes \/ l.prefix \in {<<>>, <<"0", "x">>}
-                 ELSE l.suffix \in CanonSuffixes \/ (Thorough /\ l.base \in {10, 16})
+      \* quick: every suffix spelling only for decimal literals, canonical suffixes for the other forms, one separator style
+      keep(l) == IF l.sep = "none" THEN Thorough \/ l.suffix \in CanonSuffixes \/ l.prefix = <<>>
+                 ELSE (Thorough /\ (l.suffix \in CanonSuffixes \/ l.base \in {10, 16}))
+                      \/ (l.sep = "group" /\ l.suffix \in {<<>>, <<"u", "l", "l">>})
   IN  {l \in plain \cup seps : keep(l) /\ StyleDistinct(l) /\ IntLitType(l, P) # "?"}
 
 PlainEls == {ElCh(c) : c \in PlainChars}
@@ -114,7 +115,7 @@ FloatSpellings ==
   IN  {l \in dec \cup hex \cup intexp :
          /\ FracExactSmall(FloatLitFrac(l))
          \* quick: fewer suffix spellings and exponents
-         /\ (Thorough \/ (l.suffix \in {<<>>, <<"f">>, <<"L">>} /\ l.exp \in {0, 1, 3, -2} /\ Len(l.fp) <= 3))}
+         /\ (Thorough \/ (l.suffix \in {<<>>, <<"f">>, <<"L">>} /\ l.exp \in {0, 3, -2} /\ Len(l.fp) <= 2 /\ Len(l.ip) <= 2))}
 
 --------------------------------------------------------------------------
 (* Leaves of the constant expressions *)
@@ -129,7 +130,7 @@ MaxOf(b) == IMax(Bits(b, P), IsSigned(b, P)).mag
 SixTypes == {"int", "uint", "long", "ulong", "llong", "ullong"}
 
 \* one and the maximum of each of the six types, spelled with the suffix that selects the type (quick: fewer ones)
-TypedLeaves == {IntE(<<"1">>, SuffixOf(b)) : b \in IF Thorough THEN SixTypes ELSE {"uint"}}
+TypedLeaves == {IntE(<<"1">>, SuffixOf(b)) : b \in IF Thorough THEN SixTypes ELSE {}}
                \cup {IntE(Dec(MaxOf(b)), SuffixOf(b)) : b \in SixTypes}
 SmallLeaves(ns) == {IntE(Dec(NFromSmall(n)), <<>>) : n \in ns}
 HexLeaves == {HexE(<<"8", "0", "0", "0", "0", "0", "0", "0">>, <<>>)}
@@ -147,9 +148,9 @@ Leaves ==
                                  ChrE(<<ElOct(<<"0">>)>>), [k |-> "bool", v |-> FALSE]} ELSE {}) :
      WellTyped(e)}
 \* a small set for the nested stratum
-Core == {e \in {IntE(<<"1">>, <<>>), IntE(Dec(MaxOf("int")), <<>>), IntE(<<"1">>, <<"u">>), IntE(Dec(MaxOf("uint")), <<"u">>),
+Core == {e \in {IntE(<<"1">>, <<>>), IntE(Dec(MaxOf("int")), <<>>), IntE(Dec(MaxOf("uint")), <<"u">>),
                 ChrE(<<ElHex(<<"f", "f">>)>>)}
-               \cup (IF Thorough THEN {IntE(<<"2">>, <<>>), IntE(<<"1">>, <<"l">>), IntE(<<"1">>, <<"u", "l">>), IntE(<<"1">>, <<"l", "l">>),
+               \cup (IF Thorough THEN {IntE(<<"2">>, <<>>), IntE(<<"1">>, <<"u">>), IntE(<<"1">>, <<"l">>), IntE(<<"1">>, <<"u", "l">>), IntE(<<"1">>, <<"l", "l">>),
                                        IntE(Dec(MaxOf("ullong")), <<"u", "l", "l">>)} ELSE {}) : WellTyped(e)}
 
 ArithOps == {"+", "-", "*", "/", "%"}
